@@ -108,6 +108,7 @@ pub struct Rep {
     case_viols: u32,
     case_events: u32,
     case_evals0: u64,
+    case_viols_by_op: BTreeMap<String, u32>,
     pub case_tags: Vec<String>,
     cases_run: u64,
     evals: u64,
@@ -121,7 +122,8 @@ pub struct Rep {
     event_budget_cases: u64,
 }
 
-pub const MAX_VIOLS_PER_CASE: u32 = 6;
+pub const MAX_VIOLS_PER_CASE: u32 = 60;
+pub const MAX_VIOLS_PER_OP: u32 = 3;
 pub const EVENTS_PER_CASE: u32 = 3;
 
 impl Rep {
@@ -138,6 +140,7 @@ impl Rep {
             case_viols: 0,
             case_events: 0,
             case_evals0: 0,
+            case_viols_by_op: BTreeMap::new(),
             case_tags: Vec::new(),
             cases_run: 0,
             evals: 0,
@@ -169,6 +172,7 @@ impl Rep {
         self.case_viols = 0;
         self.case_events = 0;
         self.case_evals0 = self.evals;
+        self.case_viols_by_op.clear();
         self.case_tags.clear();
         self.cases_run += 1;
         let j = J::obj()
@@ -233,7 +237,11 @@ impl Rep {
     pub fn viol(&mut self, op: &str, args: String, exp: String, got: String, kind: String) {
         self.viols += 1;
         self.case_viols += 1;
-        if self.case_viols > MAX_VIOLS_PER_CASE {
+        // flood control is per (case, operation), so that one noisy (possibly known) finding
+        // cannot use up the budget and hide a different violation in the same case
+        let per_op = self.case_viols_by_op.entry(op.to_string()).or_insert(0);
+        *per_op += 1;
+        if *per_op > MAX_VIOLS_PER_OP || self.case_viols > MAX_VIOLS_PER_CASE {
             self.viols_suppressed += 1;
             return;
         }
